@@ -1,5 +1,6 @@
 import Lean.Data.Json
 import Glom.Spec.C19
+import Glom.Spec.C19Face
 import Glom.Model.C19Env
 /-
   C19 driver: one JSON case in, one JSON verdict out.
@@ -19,7 +20,19 @@ import Glom.Model.C19Env
        "read":[[path,{"ok":text}|{"err":cls}]…]   what `open(path).read()` gives (text mode) for every file of the case
        "stdin_text":text|null, "stdin_err":cls|null   what `sys.stdin.read()` gives
        "mro":[[cls,[names…]]…]   the MRO of every exception class named in the tables
-    "impl":  {"outcome":{"exit":[code,stdout]}|{"usage":true}|{"exc":cls},"side_effect":b}
+       "inspect":[[sid,echo,recursive,breakpoint,post_mortem,sid']…]   Inspect(spec, …) as a spec id
+       "printed":[[tid,sid,text]…]   what glom.glom(t, s) wrote to stdout (rows only where it wrote something)
+       "parseint":[[text,n|null]…]   int(text)        "help":text   the help handler's output
+       "flagfile":[[path,{"err":cls}|{"exc":cls}|{"lines":[{"err":cls}|{"tok":[…]}…]}]…]   "abspath":[[path,abs]…]
+    "raw":   the argument list as the process receives it (["glom", …]); when present the model PARSES it
+             (Model/C19Face) and, when "argv" is present too, must arrive at these flags
+    "stdin_open": bool (default true)
+    "impl":  {"outcome":{"exit":[code,stdout]}|{"usage":true}|{"cli":true}|{"exc":cls},"side_effect":b}
+    channel mode — the same request through several deliveries:
+    "req":   {"spec":text,"target":text,"fmt":s|null,"indent":n|null,"scalar":b,"spec_format":s|null,
+              "spec_path":path,"target_path":path,"junk":text,"tty":b}
+    "vias":  [[sv,tv]…]  sv ∈ argv|file, tv ∈ argv|file|dash|dashfile|piped
+    "impl_vias": [{"outcome":…,"side_effect":b}…]   aligned with "vias"
   A lookup that misses its table yields the class "<no-oracle>".
 -/
 namespace Glom.C19.Driver
@@ -53,6 +66,12 @@ structure Tables where
   files : List (String × Option String)
   readErr : List (String × String)
   mro : List (String × List String)
+  inspect : List (Nat × Bool × Bool × Bool × Bool × Nat)
+  printed : List (Nat × Nat × String)
+  parseint : List (String × Option Int)
+  help : String
+  flagfile : List (String × Except (Bool × String) (List (Except String (List String))))
+  abspath : List (String × String)
 
 def triple (j : Json) : Except String (Json × Json × Json) := do
   match ← arr j with
@@ -120,7 +139,36 @@ def tablesOfJson (e files : Json) : Except String Tables := do
         | .arr #[.str c, .arr ns] => some (c, ns.toList.filterMap (fun n => n.getStr?.toOption))
         | _ => none)
     | _ => []
-  return { parse := parse, load := load, repr := repr, strspec := strspec,
+  let optArr := fun (k : String) => match e.getObjVal? k with | .ok (.arr rows) => rows.toList | _ => []
+  let inspect := (optArr "inspect").filterMap (fun row => match row with
+    | .arr #[a, .bool b1, .bool b2, .bool b3, .bool b4, c] =>
+      match a.getNat?, c.getNat? with | .ok x, .ok y => some (x, b1, b2, b3, b4, y) | _, _ => none
+    | _ => none)
+  let printed := (optArr "printed").filterMap (fun row => match row with
+    | .arr #[a, b, .str t] => match a.getNat?, b.getNat? with | .ok x, .ok y => some (x, y, t) | _, _ => none
+    | _ => none)
+  let parseint := (optArr "parseint").filterMap (fun row => match row with
+    | .arr #[.str t, .null] => some (t, none)
+    | .arr #[.str t, n] => match n.getInt? with | .ok i => some (t, some i) | _ => none
+    | _ => none)
+  let strList := fun (x : Json) => match x with
+    | .arr xs => xs.toList.filterMap (fun y => y.getStr?.toOption) | _ => []
+  let flagfile := (optArr "flagfile").filterMap (fun row => match row with
+    | .arr #[.str p, r] =>
+      if let .ok c := r.getObjValAs? String "err" then some (p, .error (true, c))
+      else if let .ok c := r.getObjValAs? String "exc" then some (p, .error (false, c))
+      else match r.getObjVal? "lines" with
+        | .ok (.arr ls) => some (p, .ok (ls.toList.map (fun l =>
+            if let .ok c := l.getObjValAs? String "err" then (.error c : Except String (List String))
+            else match l.getObjVal? "tok" with | .ok t => .ok (strList t) | _ => .error "<bad-oracle>")))
+        | _ => none
+    | _ => none)
+  let abspath := (optArr "abspath").filterMap (fun row => match row with
+    | .arr #[.str a, .str b] => some (a, b) | _ => none)
+  return { inspect := inspect, printed := printed, parseint := parseint,
+           help := (e.getObjValAs? String "help").toOption.getD "<no-oracle>",
+           flagfile := flagfile, abspath := abspath,
+           parse := parse, load := load, repr := repr, strspec := strspec,
            emptySpec := ← e.getObjValAs? Nat "empty_spec", emptyTarget := ← e.getObjValAs? Nat "empty_target",
            glom := glom, dumps := dumps, scalar := scalar, files := fl, readErr := readErr, mro := mro }
 
@@ -148,7 +196,14 @@ def extOf (t : Tables) : Ext Nat Nat Nat :=
     mro := fun c => match t.mro.find? (·.1 == c) with
       | some x => x.2
       -- a file named nowhere in the case does not exist
-      | none => if c == "FileNotFoundError" then ["FileNotFoundError", "OSError", "Exception", "BaseException"] else [c] }
+      | none => if c == "FileNotFoundError" then ["FileNotFoundError", "OSError", "Exception", "BaseException"] else [c]
+    inspect := fun s e r b p => match t.inspect.find? (fun x => x.1 == s && x.2.1 == e && x.2.2.1 == r && x.2.2.2.1 == b && x.2.2.2.2.1 == p) with
+      | some x => x.2.2.2.2.2 | none => 999998
+    printed := fun a b => match t.printed.find? (fun x => x.1 == a && x.2.1 == b) with | some x => x.2.2 | none => ""
+    parseInt := fun s => match t.parseint.find? (·.1 == s) with | some x => x.2 | none => none
+    helpText := t.help
+    flagfile := fun p => match t.flagfile.find? (·.1 == p) with | some x => x.2 | none => .error (true, "FileNotFoundError")
+    abspath := fun p => match t.abspath.find? (·.1 == p) with | some x => x.2 | none => p }
 
 /-- the trusted facts about the externals' failures (`LoadErrOk`, `ReadErrOk` of Lemmas/C19),
     evaluated on this case's tables: every class a loader raised is an `Exception` subclass, every
@@ -162,7 +217,9 @@ def extFactsOk (t : Tables) (X : Ext Nat Nat Nat) (w : World) : Bool :=
     | .error c => c == "<no-oracle>" || (X.mro c).contains "Exception"
     | .ok _ => true) &&
   t.readErr.all (fun r => isTextReadErrB X r.2) &&
-  (match w.stdinErr with | some c => isTextReadErrB X c | none => true)
+  (match w.stdinErr with | some c => !w.stdinOpen || isTextReadErrB X c | none => true) &&
+  -- the library call prints nothing unless the spec is an Inspect built by --debug / --inspect
+  t.printed.all (fun r => r.2.2.isEmpty || t.inspect.any (fun i => i.2.2.2.2.2 == r.2.1))
 
 def argvOfJson (j : Json) : Except String Argv := do
   let pos ← (← arr (← j.getObjVal? "posargs")).mapM (fun x => x.getStr?)
@@ -171,7 +228,9 @@ def argvOfJson (j : Json) : Except String Argv := do
     | _ => none
   return { posargs := pos, targetFile := optStr j "target_file", targetFormat := optStr j "target_format",
            specFile := optStr j "spec_file", specFormat := optStr j "spec_format", indent := ind,
-           scalar := (j.getObjValAs? Bool "scalar").toOption.getD false }
+           scalar := (j.getObjValAs? Bool "scalar").toOption.getD false,
+           debug := (j.getObjValAs? Bool "debug").toOption.getD false,
+           inspect := (j.getObjValAs? Bool "inspect").toOption.getD false }
 
 def outcomeOfJson (j : Json) : Except String Outcome := do
   if let .ok e := j.getObjVal? "exit" then
@@ -179,6 +238,7 @@ def outcomeOfJson (j : Json) : Except String Outcome := do
     | [c, s] => return .exit (← c.getNat?) (← s.getStr?)
     | _ => throw "bad exit"
   else if let .ok _ := j.getObjVal? "usage" then return .usage .specBoth
+  else if let .ok _ := j.getObjVal? "cli" then return .cli .emptyArgv
   else if let .ok c := j.getObjValAs? String "exc" then return .exc c
   else throw s!"bad outcome {j.compress}"
 
@@ -187,53 +247,138 @@ def canon (o : Outcome) : Outcome :=
   match o with
   | .exit 1 out => .exit 1 (String.ofList (out.toList.takeWhile (· != ':')))
   | .usage _ => .usage .specBoth
+  | .cli _ => .cli .emptyArgv
   | o => o
 
 def outcomeToJson : Outcome → Json
   | .exit c s => Json.mkObj [("exit", Json.arr #[c, s])]
   | .usage u => Json.mkObj [("usage", (reprStr u : String))]
+  | .cli e => Json.mkObj [("cli", (reprStr e : String))]
   | .exc c => Json.mkObj [("exc", c)]
 
 def expectTag : Expect → String
   | .result _ => "result" | .glomError c => s!"glomerror-{c}" | .targetUsage => "target-usage"
   | .noResult => "malformed-spec" | .silent => "silent"
 
+def outTag (o : Outcome) : String :=
+  match canon o with | .exit c _ => s!"exit{c}" | .usage _ => "usage" | .cli _ => "cli" | .exc c => s!"exc-{c}"
+
+def specViaOf (s path : String) : Except String SpecVia :=
+  if s == "argv" then .ok .argv else if s == "file" then .ok (.file path) else .error s!"bad spec via {s}"
+
+def targetViaOf (s path : String) : Except String TargetVia :=
+  if s == "argv" then .ok .argv else if s == "file" then .ok (.file path)
+  else if s == "dash" then .ok .dashArg else if s == "dashfile" then .ok .dashFile
+  else if s == "piped" then .ok .piped else .error s!"bad target via {s}"
+
+def implObs (impl : Json) : Except String Obs := do
+  return ⟨← outcomeOfJson (← impl.getObjVal? "outcome"), ← impl.getObjValAs? Bool "side_effect"⟩
+
+/-- channel mode: one request, several deliveries -/
+def runChannels (j : Json) (t : Tables) (hostile : Bool) : Except String Json := do
+  let rq ← j.getObjVal? "req"
+  let specPath ← rq.getObjValAs? String "spec_path"
+  let targetPath ← rq.getObjValAs? String "target_path"
+  let ind : Option Int := match rq.getObjVal? "indent" with
+    | .ok (.num n) => if n.exponent == 0 then some n.mantissa else none
+    | _ => none
+  let q : Request :=
+    { specText := ← rq.getObjValAs? String "spec", targetText := ← rq.getObjValAs? String "target",
+      sv := .argv, tv := .argv, targetFormat := optStr rq "fmt", indent := ind,
+      scalar := (rq.getObjValAs? Bool "scalar").toOption.getD false, specFormat := optStr rq "spec_format" }
+  let junk ← rq.getObjValAs? String "junk"
+  let tty ← rq.getObjValAs? Bool "tty"
+  let vias ← (← arr (← j.getObjVal? "vias")).mapM (fun v => do
+    match ← arr v with
+    | [a, b] => return (← specViaOf (← a.getStr?) specPath, ← targetViaOf (← b.getStr?) targetPath)
+    | _ => throw "bad via")
+  let obs ← (← arr (← j.getObjVal? "impl_vias")).mapM implObs
+  let X := extOf t
+  let F := genFacts
+  let models := vias.map (fun v => cliMain F X (q.via v.1 v.2).argv ((q.via v.1 v.2).world junk tty))
+  let holds := checkChannels X q vias junk tty hostile obs
+  let modelHolds := checkChannels X q vias junk tty hostile (models.map observe)
+  let factsOk := extFactsOk t X ⟨junk, tty, none, true⟩
+  let agree := models.length == obs.length &&
+    (models.zip obs).all (fun mo => canon mo.1 == canon mo.2.outcome && !mo.2.sideEffect) && factsOk
+  let comparable := q.comparable X vias
+  let ex := match vias with
+    | v :: _ => expect X (q.via v.1 v.2).argv ((q.via v.1 v.2).world junk tty)
+    | [] => .silent
+  let same := channelsAgree (obs.map (·.outcome))
+  return Json.mkObj [("agree", agree), ("holds", holds), ("model_holds", modelHolds), ("wf", WF F),
+    ("model", Json.arr (models.map outcomeToJson).toArray),
+    ("branch", ((if hostile then "hostile/" else "") ++ "channels/" ++ expectTag ex ++ "/" ++
+      (match models with | m :: _ => outTag m | [] => "none") ++
+      (if comparable then "" else "/incomparable") : String)),
+    ("why", (if !holds && comparable && !same then
+        "the same spec text and target text give different outcomes through different channels (see impl_vias)"
+      else if !holds then "a delivery does not give what the property expects"
+      else if agree then "" else if !factsOk then "a trusted fact about the externals does not hold on this case"
+      else "model outcome differs from the implementation's on a delivery" : String))]
+
 def run (j : Json) : Except String Json := do
-  let a ← argvOfJson (← j.getObjVal? "argv")
   let t ← tablesOfJson (← j.getObjVal? "ext") (← j.getObjVal? "files")
+  let hostile := (j.getObjValAs? Bool "hostile").toOption.getD false
+  if let .ok _ := j.getObjVal? "vias" then
+    return ← runChannels j t hostile
   let e ← j.getObjVal? "ext"
   let stdinText : String := match j.getObjVal? "stdin" with
     | .ok (.str s) => s
     | _ => (e.getObjValAs? String "stdin_text").toOption.getD ""
-  let w : World := ⟨stdinText, ← j.getObjValAs? Bool "tty", (e.getObjValAs? String "stdin_err").toOption⟩
-  let hostile := (j.getObjValAs? Bool "hostile").toOption.getD false
+  let w : World := ⟨stdinText, ← j.getObjValAs? Bool "tty", (e.getObjValAs? String "stdin_err").toOption,
+    (j.getObjValAs? Bool "stdin_open").toOption.getD true⟩
   let impl ← j.getObjVal? "impl"
-  if let .ok true := impl.getObjValAs? Bool "clierror" then
-    return Json.mkObj [("skip", true), ("why", "face rejected the command line (outside the model)")]
   let implOut ← outcomeOfJson (← impl.getObjVal? "outcome")
   let side ← impl.getObjValAs? Bool "side_effect"
   let X := extOf t
   let F := genFacts
-  let m := cliMain F X a w
-  let ex := expect X a w
-  let holds := checkC19 X a w hostile ⟨implOut, side⟩
-  let modelHolds := checkC19 X a w hostile (observe m)
+  let tbl := genTable
+  -- the flags: parsed by the model from the raw argument list when there is one
+  let given : Option Argv := match j.getObjVal? "argv" with
+    | .ok aj => (argvOfJson aj).toOption
+    | _ => none
+  let raw : Option (List String) := match j.getObjVal? "raw" with
+    | .ok (.arr xs) => some (xs.toList.filterMap (fun x => x.getStr?.toOption))
+    | _ => none
+  let parsed : Option ParseRes := raw.map (parseArgv tbl X.penv)
+  let parseOk := match parsed, given with
+    | some (.ok a), some g => a == g
+    | some _, some _ => false          -- the harness meant these flags; the model's parser read something else
+    | _, _ => true
+  let (m, ex, a?) ← match raw, given with
+    | some r, _ => pure (cliMainArgv tbl F X r w, expectArgv tbl X r w,
+        (match parseArgv tbl X.penv r with | .ok a => some a | _ => none))
+    | none, some g => pure (cliMain F X g w, expect X g w, some g)
+    | none, none => throw "neither raw nor argv"
+  let holds := checkExpect ex hostile ⟨implOut, side⟩
+  let modelHolds := checkExpect ex hostile (observe m)
   let factsOk := extFactsOk t X w
-  let agree := canon m == canon implOut && !side && factsOk
-  let src := (if a.specFile.isSome then "spec:file" else "spec:argv") ++ "," ++
-    (match a.posargs, a.targetFile with
-     | [_, "-"], _ => "target:dash"
-     | [_, _], none => "target:argv"
-     | _, some "-" => "target:dashfile"
-     | _, some _ => "target:file"
-     | _, none => if w.stdinTty then "target:none" else "target:piped")
-  return Json.mkObj [("agree", agree), ("holds", holds), ("model_holds", modelHolds), ("wf", WF F),
-    ("model", outcomeToJson m),
-    ("branch", ((if hostile then "hostile/" else "") ++ expectTag ex ++ "/" ++
-      (match canon m with | .exit c _ => s!"exit{c}" | .usage _ => "usage" | .exc c => s!"exc-{c}") ++
+  let agree := canon m == canon implOut && !side && factsOk && parseOk
+  let src := match a? with
+    | none => "unparsed"
+    | some a => (if a.specFile.isSome then "spec:file" else "spec:argv") ++ "," ++
+      (match a.posargs, a.targetFile with
+       | [_, "-"], _ => "target:dash"
+       | [_, _], none => "target:argv"
+       | _, some "-" => "target:dashfile"
+       | _, some _ => "target:file"
+       | _, none => if w.stdinTty then "target:none" else "target:piped")
+  let ptag := match parsed with
+    | some .help => "help/"
+    | some (.fail (.cli e)) => "cli-" ++ reprStr e ++ "/"
+    | some (.fail (.exc _)) => "parse-exc/"
+    | _ => ""
+  let dbg := match a? with
+    | some a => (if a.debug then "debug/" else "") ++ (if a.inspect then "inspect/" else "")
+    | none => ""
+  return Json.mkObj [("agree", agree), ("holds", holds), ("model_holds", modelHolds),
+    ("wf", WF F), ("model", outcomeToJson m),
+    ("branch", ((if hostile then "hostile/" else "") ++ ptag ++ dbg ++ expectTag ex ++ "/" ++ outTag m ++
       (if ex == .silent then "" else "/" ++ src) : String)),
     ("why", (if agree then "" else if !factsOk then
-        "a trusted fact about the externals does not hold on this case: a loader raised a class outside Exception, or a read failed with neither an OSError nor a UnicodeError"
+        "a trusted fact about the externals does not hold on this case: a loader raised a class outside Exception, a read failed with neither an OSError nor a UnicodeError, or the library call printed something for a spec that is no Inspect"
+      else if !parseOk then "the model's parser (Model/C19Face) does not read the raw argument list as the flags the case names"
       else "model outcome differs from the implementation's" : String))]
 
 end Glom.C19.Driver
